@@ -86,6 +86,44 @@ def pow_rule(via_header: bool, twin: bool = False, real: bool = False):
     return check_pow, {"idb": b"\x00" * 32, "tgt": b"\x01" + b"\x00" * 31, "ts": 5, "now": 5}
 
 
+def pow_rule_block(twin: bool = False, real: bool = False):
+    """The id-below-target rule on a block OBJECT that carries a remembered id (set at decode time or handed to the
+    constructor) which is not the id of its header: the rule is about the header being validated, not the remembered value."""
+    W = World(real=real)
+    cons, dt = W.cons, W.dt
+
+    def check_pow_block(idb: bytes, idc: bytes, tgt: bytes, ts: int, now: int) -> bool:
+        """
+        post: _
+        """
+        if len(idb) != 32 or len(idc) != 32 or len(tgt) != 32:
+            return True
+        if not (0 <= ts < 2 ** 32 and 0 <= now < 2 ** 32):
+            return True
+        if not real:
+            W._install_crypto()
+        cb = W.env.coinbase(2, [dt.Output(1, W.keys[3])], tok(TX, 20))
+        try:
+            hdr = dt.BlockHeader(dt.BlockSummary(2, tok(BLK, 1), W.ref_merkle([cb.hash()]), ts, tgt, 0),
+                                 dt.PowEvidence(b"\x00" * 32, b"\x00" * 32, b"\x00" * 32))
+            hdr.hash = lambda: idb          # the header's id: any 32 bytes
+            block = dt.Block(hdr, [cb], hash=idc)       # the remembered id: any 32 bytes
+            cons.validate_block_by_itself(block, now)
+            accepted = True
+        except Exception:
+            accepted = False
+        if twin:
+            return not accepted
+        if accepted:
+            if not (int.from_bytes(idb, "big") < int.from_bytes(tgt, "big")):
+                return False
+            if not (ts <= now + MAX_FUTURE):
+                return False
+        return True
+
+    return check_pow_block, {"idb": b"\x00" * 32, "idc": b"\x7f" * 32, "tgt": b"\x01" + b"\x00" * 31, "ts": 5, "now": 5}
+
+
 # ------------------------------------------------------------------------------------------------ b (E2)
 
 
@@ -545,6 +583,8 @@ def obligations(tier: str, known: List[str]) -> List[Ob]:
     obs: List[Ob] = []
     obs.append(Ob("a.pow[validate_proof_of_work]", C_POW, "pow_rule", {"via_header": False}, timeout=T))
     obs.append(Ob("a.pow+future[validate_block_header_by_itself]", C_POW + "; " + C_TIME, "pow_rule", {"via_header": True}, timeout=T))
+    obs.append(twin_of(obs[-1]))
+    obs.append(Ob("a.pow+future[validate_block_by_itself,remembered-id-differs-from-header-id]", C_POW + "; " + C_TIME, "pow_rule_block", {}, timeout=T))
     obs.append(twin_of(obs[-1]))
     obs.append(Ob("b.new-target-kernel", C_TGT, "new_target_kernel", {}, kind="e2"))
     for h in ((2, RETARGET, RETARGET + 1, 2 * RETARGET) if thorough else (2, RETARGET, RETARGET + 1)):
